@@ -65,9 +65,7 @@ class _PtnCChordStream:
                 [[primary, secondary]],
                 keys=keys,
                 options=PtnFilterChord.Option.ANY_ORDER
-                | PtnFilterChord.Option.AND_LOWER
-                if and_lower
-                else 0,
+                | (PtnFilterChord.Option.AND_LOWER if and_lower else 0),
                 exclude=False,
             ).filter,
             combo_filter=PtnFilterCombo.create(
